@@ -294,3 +294,45 @@ def following_guards(fi: FuncInfo, node: ast.AST) -> list[ast.If]:
         return False
     rec(fi.node.body)
     return out
+
+
+# --------------------------------------------------------------------------- order preserving derivations
+
+def peel_sequence(flow: Flow, expr: ast.AST, depth: int = 10):
+    """Peel order-preserving wrappers from a sequence valued expression.
+
+    Returns (layers, core).  Layers: ('conv', name) for tuple()/list()/cast(),
+    ('map', function_expr) for map(f, x), ('comp', elt, target) for a comprehension with
+    one generator and no condition.  The core is whatever is left (an ast node).
+    """
+    layers = []
+    e = flow.resolve(expr)
+    while depth > 0:
+        depth -= 1
+        if isinstance(e, ast.Call):
+            fn = dotted(e.func) or ''
+            short = fn.rsplit('.', 1)[-1]
+            if short == 'cast' and len(e.args) == 2:
+                layers.append(('conv', 'cast'))
+                e = flow.resolve(e.args[1])
+                continue
+            if fn in ('tuple', 'list') and len(e.args) == 1 and not e.keywords:
+                layers.append(('conv', fn))
+                e = flow.resolve(e.args[0])
+                continue
+            if fn == 'map' and len(e.args) == 2:
+                layers.append(('map', e.args[0]))
+                e = flow.resolve(e.args[1])
+                continue
+        if isinstance(e, (ast.GeneratorExp, ast.ListComp)) and len(e.generators) == 1 \
+                and not e.generators[0].ifs and not e.generators[0].is_async:
+            layers.append(('comp', e.elt, e.generators[0].target))
+            e = flow.resolve(e.generators[0].iter)
+            continue
+        break
+    return layers, e
+
+
+def enum_members(ctx: Context, enum_qual: str) -> list[str]:
+    ci = ctx.p.cls(enum_qual)
+    return [name for name, val in ci.attrs.items() if not name.startswith('_')]
